@@ -11,7 +11,7 @@ import (
 
 func allOpts() *synth.Opts {
 	return &synth.Opts{Pointers: true, Unions: 1, RareBasics: true, Recursion: true, SubPkgs: true, Generics: true, Aliases: true,
-		Embedded: true, StdTypes: true, Spelling: true, TagVariety: true, EnumStress: true, FixedArrays: true, Maps: true, Times: true}
+		Embedded: true, StdTypes: true, Spelling: true, TagVariety: true, EnumStress: true, UnionStress: true, FixedArrays: true, Maps: true, Times: true}
 }
 
 func TestTypesProfileTypeChecks(t *testing.T) {
